@@ -347,7 +347,9 @@ func (k Keeper) calcFeeTokenMinted(
 		return burnt, minted, types.ErrInvalidSwap
 	}
 
-	tokenMinted, err := k.GetToken(ctx, swapParams.MinUnit)
+	// the registry names the target by its min unit: resolve it as such, a
+	// lookup by symbol first could pick an unrelated token (and its scale)
+	tokenMinted, err := k.getTokenByMinUnit(ctx, swapParams.MinUnit)
 	if err != nil {
 		return burnt, minted, err
 	}
